@@ -498,9 +498,15 @@ class sptensor:
         dims, _ = tt_dimscheck(self.ndims, dims=dims)
         remdims = np.setdiff1d(np.arange(0, self.ndims), dims)
 
+        # Booleans and narrow integers are added up as 64-bit integers
+        # (no truth values, no wrap-around)
+        vals = self.vals
+        if vals.dtype.kind in "bui" and vals.dtype.itemsize < 8:
+            vals = vals.astype(np.int64)
+
         # Check for the case where we accumulate over *all* dimensions
         if remdims.size == 0:
-            result = function_handle(self.vals.reshape(-1))
+            result = function_handle(vals.reshape(-1))
             if isinstance(result, np.generic):
                 result = result.item()
             return result
@@ -513,7 +519,7 @@ class sptensor:
             if self.subs.size > 0:
                 return accumarray(
                     self.subs[:, remdims].transpose()[0],
-                    self.vals.transpose()[0],
+                    vals.transpose()[0],
                     size=newsize[0],
                     func=function_handle,
                 )
@@ -522,7 +528,7 @@ class sptensor:
         # Create Result
         if self.subs.size > 0:
             return ttb.sptensor.from_aggregator(
-                self.subs[:, remdims], self.vals, tuple(newsize), function_handle
+                self.subs[:, remdims], vals, tuple(newsize), function_handle
             )
         return ttb.sptensor(np.array([]), np.array([]), tuple(newsize), copy=False)
 
@@ -582,7 +588,7 @@ class sptensor:
         # Easy case - returns a scalar
         if self.ndims == 2:
             tfidx = self.subs[:, 0] == self.subs[:, 1]  # find diagonal entries
-            return sum(self.vals[tfidx].transpose()[0])
+            return np.sum(self.vals[tfidx].transpose()[0]).item()
 
         # Remaining dimensions after contract
         remdims = np.setdiff1d(np.arange(0, self.ndims), np.array([i_0, i_1])).astype(
